@@ -142,9 +142,36 @@ def mutants_of(path, text):
             m = re.search(r"[+-]", mid)
             if m:
                 add(a + m.start(), a + m.end(), "-" if m.group(0) == "+" else "+", "arith", n)
+    tops = [(n.lineno, n.end_lineno, n.name) for n in tree.body if isinstance(n, (ast.ClassDef, ast.FunctionDef))]
+    for m in out:
+        m["scope"] = next((name for lo, hi, name in tops if lo <= m["line"] <= hi), "<module>")
     # stable order and ids
     out.sort(key=lambda m: (m["a"], m["op"], m["new"]))
     return out
+
+
+# which quick checks exercise a top-level scope (first match wins); default = the file's list in FILES
+SCOPE_CHECKS = [
+    ("codebasin/preprocessor.py", r"Lexer|.*Constant|Token|Identifier|Operator|Punctuator|Unknown", ["C03", "C02"]),
+    ("codebasin/preprocessor.py", r"Macro.*|ExpanderHelper|macro_from_definition_string|make_macro", ["C03", "C01"]),
+    ("codebasin/preprocessor.py", r"ExpressionEvaluator", ["C02", "C01"]),
+    ("codebasin/preprocessor.py", r"IfNode|ElIfNode|ElseNode|EndIfNode|DefineNode|UndefNode|CodeNode|Node|FileNode|DirectiveNode|SourceTree", ["C01", "C08", "C06"]),
+    ("codebasin/preprocessor.py", r"Include.*|PragmaNode|UnrecognizedDirectiveNode", ["C04", "C18", "C15"]),
+    ("codebasin/preprocessor.py", r"DirectiveParser|Parser", ["C01", "C03", "C04", "C18"]),
+    ("codebasin/file_source.py", r".*asm.*", []),          # assembly sources: no listed property covers them
+    ("codebasin/file_source.py", r".*fortran.*", ["C17"]),
+    ("codebasin/file_source.py", r"c_.*", ["C05"]),
+    ("codebasin/report.py", r"find_duplicates|duplicates", ["C16", "C14"]),
+    ("codebasin/report.py", r"coverage|average_coverage|distance|divergence|extract_platforms|normalized_utilization|summary|clustering", ["C07", "C06"]),
+    ("codebasin/report.py", r"FileTree.*|files|_.*", ["C06", "C15", "C14"]),
+]
+
+
+def checks_for(m):
+    for f, rx, cs in SCOPE_CHECKS:
+        if m["file"] == f and re.fullmatch(rx, m.get("scope", "")):
+            return cs
+    return FILES[m["file"]]
 
 
 def gen():
@@ -241,7 +268,7 @@ def run_checks(m):
     res = {}
     caught = None
     try:
-        for c in FILES[m["file"]]:
+        for c in checks_for(m):
             env = dict(os.environ, VERIF_REPO=d, VERIF_NPROC=os.environ.get("CHECK_NPROC", "4"), VERIF_SHRINK_BUDGET="20")
             try:
                 p = subprocess.run([os.path.join(VERIF, "check"), c, "--tier", "quick"], cwd=VERIF, env=env, capture_output=True, text=True, timeout=1500)
@@ -265,7 +292,7 @@ def checks():
     ms = {m["id"]: m for m in load()}
     t = done("tests.jsonl")
     have = done("checks.jsonl")
-    todo = [ms[i] for i, r in t.items() if r["tests"] == "survived" and i not in have and i in ms]
+    todo = [ms[i] for i, r in t.items() if r["tests"] == "survived" and i not in have and i in ms and checks_for(ms[i])]
     step = int(os.environ.get("EVERY", "1"))
     off = int(os.environ.get("OFFSET", "0"))
     todo = [m for k, m in enumerate(todo) if k % step == off]
